@@ -527,8 +527,28 @@ func init() {
 		// slice / map helpers
 		g := c.gen()
 		f := rjson.StdLibCompatibleString
-		for i := 0; i < c.scale(4000, 40000); i++ {
+		// documents with ill-formed bytes in strings and keys at every depth and in every container combination
+		var treeDocsX [][]byte
+		bads := []string{"x\xffy", "\xc0\x80", "\xed\xa0\x80", "ok", "\xef\xbf\xbd", "é\x80", ""}
+		for _, b1 := range bads {
+			for _, b2 := range bads {
+				q := func(s string) string { return `"` + s + `"` }
+				for _, shape := range []string{`[%s,%s]`, `{%s:%s}`, `[{"a":[%s]},{%s:1}]`, `{"a":{"b":[[%s]],%s:[]}}`, `[[[%s]],{"k":{"j":%s}}]`, `{%s:{%s:null}}`, `[1,true,null,%s,{"n":[{"m":%s}]}]`} {
+					treeDocsX = append(treeDocsX, []byte(fmt.Sprintf(shape, q(b1), q(b2))))
+				}
+			}
+		}
+		var treeCases []Case
+		for _, d := range treeDocsX {
+			treeCases = append(treeCases, apiCase("tree:model", "StdTree", hx(d)))
+		}
+		for i := 0; i < c.scale(4000, 40000)+len(treeDocsX); i++ {
 			d := g.Doc(4, 14)
+			if i < len(treeDocsX) {
+				d = treeDocsX[i]
+			} else if i%2 == 0 {
+				treeCases = append(treeCases, apiCase("tree:model", "StdTree", hx(d)))
+			}
 			v, _, err := rjson.ReadValue(d)
 			if err != nil {
 				continue
@@ -560,6 +580,9 @@ func init() {
 				}
 			}
 			s.Distinct["tree "+hx(d)] = struct{}{}
+		}
+		if err := s.Run(treeCases); err != nil {
+			return "", err
 		}
 		return "StdLibCompatibleString / StringBytes on all 1-byte strings, 2-byte strings for 21 (quick) or all 256 (thorough) lead bytes, boundary 3- and 4-byte sequences (thorough: all 3-byte sequences with bytes 0x70..0xcf after a lead >= 0xc0), generated strings up to 2200 bytes; compared with the model and with the Lean specification sanitize; identity on valid UTF-8 and idempotence; slice/map helpers against per-node application, argument immutability and encoding/json on collision-free trees", nil
 	}
